@@ -214,6 +214,7 @@ def check_property(prop, tier, seed, jobs=12):
             kf = match_known(known, prop, failure)
             if kf:
                 known_hits[kf["id"]] = kf
+                undischarged.append({"name": o["name"], "reason": f"{o['status']}: isolates known finding {kf['id']} (known_findings.txt)"})
                 continue
             was_proved = baseline.get(r["task"], {}).get(o["name"]) == "proved"
             if o["status"] == "refuted" or (o["status"] == "unknown" and was_proved):
